@@ -16,7 +16,7 @@ from ..vlib import Report, Inconclusive
 
 PROPS = ["X02"]
 WORKERS = 8
-MANAGED = ["A", "B", "C"]
+MANAGED = ["A", "B", "C", "D", "N"]
 RESOLVER_INVS = ["DepthBound", "ReadOnce", "ResolvedNotRef", "SnapshotFunctional"]
 DEV_CFGS = {"ServiceRef.dev.depth.cfg": "NothingBroken", "ServiceRef.dev.otherdoc.cfg": "NothingBroken",
             "ServiceRef.dev.spelling.cfg": "NothingBroken", "ServiceRef.dev.lock.cfg": "NothingBroken",
@@ -25,6 +25,9 @@ ACTIONS = ["ResolveBegin", "Hop", "NetUpdate", "AddCheck", "DeleteCheck", "OpWri
 # family T (not TLC-generated): service types that need escaping in a query; MakeServiceReference must round-trip
 RT_TYPES = {"plain": "oauth", "dash": "node-contact-info", "plus": "a+b", "space": "a b", "amp": "a&b", "percent": "a%41",
             "hash": "a#b", "equals": "a=b", "question": "a?b", "slash": "a/b", "unicode": "zorg-ä", "semicolon": "a;b"}
+
+
+RT_ESCAPE = {"plus", "amp", "percent", "hash", "semicolon"}   # characters with a meaning in a URI query / fragment
 
 
 # ------------------------------------------------------------------------------------------------ model -> cases
@@ -111,7 +114,7 @@ def cases_hist(printed, fam):
                 st = dict(op=a.lower(), d=c["d"], t=c["t"])
                 if a == "Add":
                     st["e"] = c["e"]
-                e = dict(v=h["v"], causes=sorted(h["causes"]))
+                e = dict(v=h["v"], causes=sorted(h["causes"]), vp=h.get("vp", h["v"]))
                 if h["v"] == "ok":
                     if i + 1 >= len(hist) or hist[i + 1]["a"] != "Write":
                         raise Inconclusive("model behaviour: accepted operation without Write")
@@ -196,8 +199,12 @@ class Judge:
         self.stats = collections.Counter()
         self.nontrivial = set()
         self.viol_cases = 0
+        self.calls = 0
+        self.repaired = {}
+        self.repaired_cases = set()
 
     def viol(self, sig, case, res, detail):
+        self.calls += 1
         self.rep.violation(sig, dict(property=self.prop, signature=sig, detail=detail, case=case,
                                      real=dict(steps=res.get("steps"), obs=res.get("obs"))))
 
@@ -206,8 +213,7 @@ class Judge:
             self.drift[key] = "DRIFT: " + text
 
     def judge(self, c, r):
-        before = len(self.rep.violations) + len(self.rep.known)
-        nv0 = len(self.rep.violations)
+        nv0 = self.calls
         if r.get("error"):
             if "deadline" in r["error"]:
                 self.viol(dict(kind="hang", fam=c["fam"]), c, r, r["error"])
@@ -233,17 +239,25 @@ class Judge:
             if op == "resolve":
                 self.judge_resolve(c, r, i, st, ex, got)
             elif op in ("add", "delete"):
+                if v != ex["v"] and v == ex["vp"]:
+                    # the real code gives the verdict of the REPAIRED model: not a violation; the rest of the case
+                    # (computed from the descriptive model) is not judged
+                    dev = "ValidatorCountsFromTarget" if got.get("cause") == "too-deep" else "InUseSameDocOnly / InUseExactString"
+                    self.repaired[dev] = self.repaired.get(dev, 0) + 1
+                    self.repaired_cases.add(c["id"])
+                    break
                 self.judge_mutation(c, r, i, st, ex, got, obs)
             elif op == "getc":
                 self.judge_getc(c, r, i, st, ex, got)
             elif op == "roundtrip":
-                for cls, x in zip(ex["classes"], got.get("rt") or []):
+                cls_of = {RT_TYPES[k]: k for k in ex["classes"]}
+                for x in got.get("rt") or []:
                     self.decisions += 1
-                    self.nontrivial.add("T:" + cls)
+                    self.nontrivial.add("T:%s:%s" % (cls_of.get(x["type"]), x["via"]))
                     if x["v"] != "ok":
-                        self.viol(dict(kind="makeref-roundtrip", outcome=x["v"] if x["v"] != "ok" else ""), c, r,
-                                  "MakeServiceReference(did, %r) resolves to %s %s" % (x["type"], x["v"], x.get("found", "")))
-        if len(self.rep.violations) > nv0:
+                        self.viol(dict(kind="makeref-roundtrip", outcome=x["v"], needs_escaping=cls_of.get(x["type"]) in RT_ESCAPE), c, r,
+                                  "MakeServiceReference(did, %r) [%s] resolves to %s %s %s" % (x["type"], x["via"], x["v"], x.get("found", ""), x.get("msg", "")))
+        if self.calls > nv0:
             self.viol_cases += 1
 
     def judge_resolve(self, c, r, i, st, ex, got):
@@ -323,11 +337,82 @@ class Judge:
 
 # ------------------------------------------------------------------------------------------------ run
 
-def tlc_ok(module, cfg, timeout=1200, **kw):
-    r = vlib.tlc(module, cfg, workers=WORKERS, timeout=timeout, **kw)
+def tlc_ok(module, cfg, timeout=1200, workers=2, **kw):
+    r = vlib.tlc(module, cfg, workers=workers, timeout=timeout, **kw)
     if r.error:
         raise Inconclusive("TLC %s: %s\n%s" % (cfg, r.error, r.raw[-1500:]))
     return r
+
+
+def run_shard(binary, inp, timeout=900):
+    """like vlib.run_driver, but a driver that dies is not an exception: returns (results, last begun case without result, output tail)"""
+    import subprocess, shutil
+    work = vlib.scratch("drv")
+    try:
+        ip, op = os.path.join(work, "in.json"), os.path.join(work, "out.ndjson")
+        with open(ip, "w") as fh:
+            json.dump(inp, fh)
+        e = vlib.go_env()
+        e.update({"VERIF_IN": ip, "VERIF_OUT": op, "TMPDIR": work})
+        try:
+            p = subprocess.run([binary, "-test.run", "^TestDriver$", "-test.timeout", "%ds" % timeout, "-test.count=1"], cwd=work, env=e,
+                               stdout=subprocess.PIPE, stderr=subprocess.STDOUT, text=True, timeout=timeout + 30)
+        except subprocess.TimeoutExpired:
+            raise Inconclusive("driver timed out")
+        results, begun = [], None
+        if os.path.exists(op):
+            for line in open(op):
+                try:
+                    o = json.loads(line)
+                except ValueError:
+                    continue
+                if "begin" in o:
+                    begun = o["begin"]
+                else:
+                    results.append(o)
+                    begun = None
+        if p.returncode == 0:
+            return results, None, ""
+        return results, begun, p.stdout[:3000] + "\n...\n" + p.stdout[-1500:]
+    finally:
+        shutil.rmtree(work, ignore_errors=True)
+
+
+def run_cases(binary, cases, shards=8):
+    """runs the cases in parallel driver processes. A case that kills its process (fatal error of the code under test) is
+    confirmed by running it alone; returns (results by id, crashes: id -> output)."""
+    from concurrent.futures import ThreadPoolExecutor
+    byid, crashes = {}, {}
+    todo = [cases[i::shards] for i in range(min(shards, max(1, len(cases))))]
+    rounds = 0
+    while todo:
+        rounds += 1
+        if rounds > 6:
+            raise Inconclusive("driver keeps dying: %s" % list(crashes)[:3])
+        with ThreadPoolExecutor(max_workers=shards) as ex:
+            outs = list(ex.map(lambda part: run_shard(binary, dict(cases=[strip(c) for c in part], observe=True)), todo))
+        nxt = []
+        for part, (res, begun, tail) in zip(todo, outs):
+            for r in res:
+                byid[r["id"]] = r
+            if begun is None:
+                if len(res) < len(part) and not any(r.get("error") for r in res):
+                    raise Inconclusive("driver stopped early without a begun case:\n" + tail)
+                continue
+            # confirm alone
+            culprit = [c for c in part if c["id"] == begun]
+            r2, b2, t2 = run_shard(binary, dict(cases=[strip(c) for c in culprit], observe=True))
+            if b2 == begun:
+                crashes[begun] = t2
+            else:
+                raise Inconclusive("driver died on case %s but not when the case runs alone:\n%s" % (begun, tail))
+            rest = [c for c in part if c["id"] not in byid and c["id"] != begun]
+            if rest:
+                nxt.append(rest)
+            if len(crashes) >= 5:
+                return byid, crashes
+        todo = nxt
+    return byid, crashes
 
 
 def strip(c):
@@ -370,11 +455,13 @@ def run(prop, tier, seed, replay=None):
     if replay:
         obj = json.load(open(replay))
         c = obj["case"]
-        res = vlib.run_driver(binary, dict(cases=[strip(c)], observe=True))
-        for r in res:
-            print(json.dumps(dict(steps=r["steps"], obs=r.get("obs"), error=r.get("error")))[:6000])
+        byid, crashes = run_cases(binary, [c], shards=1)
+        for cid, tail in crashes.items():
+            print(tail[:3000])
+            rep.violation(obj.get("signature") if obj.get("signature", {}).get("kind") == "process-killed" else dict(kind="process-killed"), obj)
         j = Judge(rep, prop)
-        for r in res:
+        for r in byid.values():
+            print(json.dumps(dict(steps=r["steps"], obs=r.get("obs"), error=r.get("error")))[:6000])
             j.judge(c, r)
         rep.notes += list(j.drift.values())
         return rep.finish()
@@ -386,10 +473,22 @@ def run(prop, tier, seed, replay=None):
     def record(cfg, r, **kw):
         models.append(dict(cfg=cfg, states=r.distinct, transitions=r.generated, depth=r.depth, wall_s=round(r.wall, 1), **kw))
 
+    # all TLC jobs of this run, executed concurrently (4 jobs x 2 workers)
+    gen_cfgs = [("R", "ServiceRef.R.gen.%s.cfg" % tier), ("U", "ServiceRef.U.gen.cfg"),
+                ("V", "ServiceRef.V.gen.%s.cfg" % tier), ("S", "ServiceRef.S.gen.%s.cfg" % tier)]
+    presc = [("ServiceRef.presc.V.%s.cfg" % tier, ["NothingBroken"]), ("ServiceRef.presc.S.%s.cfg" % tier, ["NothingBroken"] + RESOLVER_INVS)]
+    # U and S: one worker, so that the witness TLC keeps per terminal state does not depend on thread timing
+    jobs = [(cfg, dict(coverage=(fam == "U" and not quick), workers=1 if fam in "US" else 2)) for fam, cfg in gen_cfgs]
+    jobs += [(cfg, dict(coverage=(not quick and ".S." in cfg))) for cfg, _ in presc] + [("ServiceRef.live.cfg", {})]
+    if not quick:
+        jobs += [(cfg, {}) for cfg in sorted(DEV_CFGS)]
+    from concurrent.futures import ThreadPoolExecutor
+    with ThreadPoolExecutor(max_workers=4) as ex:
+        tl = dict(zip([c for c, _ in jobs], ex.map(lambda j: tlc_ok("MCServiceRef", j[0], **j[1]), jobs)))
+
     # 1. the prescriptive design satisfies the properties; termination; deviation constants are observable
-    for cfg, invs in (("ServiceRef.presc.V.%s.cfg" % tier, ["NothingBroken"]),
-                      ("ServiceRef.presc.S.%s.cfg" % tier, ["NothingBroken"] + RESOLVER_INVS)):
-        r = tlc_ok("MCServiceRef", cfg, coverage=not quick and ".S." in cfg)
+    for cfg, invs in presc:
+        r = tl[cfg]
         if r.violation:
             raise Inconclusive("the prescriptive model violates %s in %s (the specification must be repaired)\n%s" % (r.violation, cfg, r.raw[-2500:]))
         record(cfg, r, invariants=invs)
@@ -398,22 +497,21 @@ def run(prop, tier, seed, replay=None):
             if missing:
                 raise Inconclusive("vacuity: actions never fired in %s: %s" % (cfg, missing))
             models[-1]["action_coverage"] = {a: r.coverage.get(a, 0) for a in ACTIONS}
-    r = tlc_ok("MCServiceRef", "ServiceRef.live.cfg")
+    r = tl["ServiceRef.live.cfg"]
     if r.violation:
         raise Inconclusive("liveness: the model has a resolution that does not terminate\n%s" % r.raw[-2500:])
     record("ServiceRef.live.cfg", r, property="Terminates (weak fairness on Hop)")
     if not quick:
         for cfg, inv in sorted(DEV_CFGS.items()):
-            r = tlc_ok("MCServiceRef", cfg)
+            r = tl[cfg]
             models.append(dict(cfg=cfg, expected_violation=inv, violated=r.violation, states=r.distinct))
             if r.violation != inv:
                 rep.notes.append("DRIFT: %s no longer violates %s (deviation constant without effect?)" % (cfg, inv))
 
     # 2. TLC enumerates the cases from the descriptive model (the code as it is)
     fams = {}
-    for fam, cfg in (("R", "ServiceRef.R.gen.%s.cfg" % tier), ("U", "ServiceRef.U.gen.cfg"),
-                     ("V", "ServiceRef.V.gen.%s.cfg" % tier), ("S", "ServiceRef.S.gen.%s.cfg" % tier)):
-        g = tlc_ok("MCServiceRef", cfg, coverage=(fam == "U" and not quick))
+    for fam, cfg in gen_cfgs:
+        g = tl[cfg]
         if g.violation:
             raise Inconclusive("the descriptive model violates %s in %s\n%s" % (g.violation, cfg, g.raw[-2500:]))
         cs = cases_R(g.printed) if fam == "R" else cases_hist(g.printed, fam)
@@ -443,16 +541,25 @@ def run(prop, tier, seed, replay=None):
     if quick:
         fams["R"] = sample(fams["R"], 500, lambda c: tuple(e["v"] for e in c["expect"]))
         fams["V"] = sample(fams["V"], 4000, lambda c: (c["steps"][0]["op"], c["expect"][0]["v"], bool(c["model_broken"]),
-                                                       c["steps"][0].get("e", {}).get("k", ""), c["steps"][0].get("n", "")))
+                                                       c["steps"][0].get("e", {}).get("k", ""), c["steps"][0].get("n", ""),
+                                                       tuple(sorted({(x == c["steps"][0]["d"], f) for x, y, f in referrers(c["docs"], c["steps"][0]["d"], c["steps"][0]["t"])}))
+                                                       if c["steps"][0]["op"] == "delete" else ()))
     chosen = [c for f in ("R", "U", "V", "S", "T") for c in fams[f]]
     order = list(chosen)
     rnd.shuffle(order)          # the seed also decides which cases share a driver process (one didstore per process)
 
     # 3. real code
-    results = vlib.run_driver_parallel(binary, dict(cases=[strip(c) for c in order], observe=True), key="cases", shards=8, timeout=900)
-    byid = {r["id"]: r for r in results}
-    missing = [c["id"] for c in chosen if c["id"] not in byid]
-    if missing:
+    byid, crashes = run_cases(binary, order)
+    cbyid = {c["id"]: c for c in chosen}
+    for cid, tail in sorted(crashes.items()):
+        kind = "stack-overflow" if "stack overflow" in tail or "goroutine stack exceeds" in tail else "fatal-error"
+        first = [l for l in tail.splitlines() if "fatal error" in l or "runtime:" in l][:2]
+        sig = dict(kind="process-killed", how=kind, fam=cbyid[cid]["fam"])
+        rep.violation(sig,
+                      dict(property=prop, signature=sig, detail="the code under test killed the process on this case (twice, also alone): %s" % first,
+                           case=cbyid[cid], real=dict(output=tail[:1500])))
+    missing = [c["id"] for c in chosen if c["id"] not in byid and c["id"] not in crashes]
+    if missing and len(crashes) < 5:
         rep.inconclusive.append("driver returned no result for %d cases (e.g. %s)" % (len(missing), missing[:3]))
 
     # 4. verdicts on real observables
@@ -465,13 +572,17 @@ def run(prop, tier, seed, replay=None):
         r = byid.get(c["id"])
         if r and c["fam"] in ("V", "S") and r.get("obs") and not r.get("error"):
             real = sorted([x[0], x[1]] for x in r["obs"][-1]["unres"])
-            if real != c["model_unres"] and all(s["op"] != "resolve" or not s.get("nets") for s in c["steps"]):
+            if c["id"] not in j.repaired_cases and real != c["model_unres"] and all(s["op"] != "resolve" or not s.get("nets") for s in c["steps"]):
                 j.note("unres", "case %s: unusable managed services %s, model %s" % (c["id"], real, c["model_unres"]))
     rep.notes += list(j.drift.values())
+    for dev, n in sorted(j.repaired.items()):
+        rep.notes.append("NOTE: in %d cases the real code gives the verdict of the repaired model where the descriptive model deviates: deviation %s "
+                         "appears to be repaired - set the constant to FALSE in spec/cfg/ServiceRef.{R,U,V,S}.gen.*.cfg and ServiceRef.trace.cfg "
+                         "and mark the finding fixed" % (n, dev))
 
     # 5. trace validation: the recorded executions are behaviours of the specification
     corrupt = os.environ.get("VERIF_X02_CORRUPT", "")
-    tcases = [c for c in chosen if c["fam"] != "T" and c["id"] in byid and not byid[c["id"]].get("error")]
+    tcases = [c for c in chosen if c["fam"] != "T" and c["id"] in byid and not byid[c["id"]].get("error") and c["id"] not in j.repaired_cases]
     limit = 1500 if quick else 12000
     if len(tcases) > limit:
         small = [c for c in tcases if c["fam"] in ("U", "S")]
